@@ -1,2 +1,114 @@
--- Driver stub for C18 (replaced when the property's model driver is written).
-def main : IO Unit := IO.println "C18: no driver yet"
+import TsVerif.Common.IO
+import TsVerif.C18.Judge
+/-!
+Driver for C18.  Input (one item per line):
+  case <id> / src <hex> / names <capture names…> / tagsfrom <n> / pat <nonlocal> <inherits> <adjacent|-> <strip|->
+  m <pattern> <idx,sb,eb,sr,sc,er,ec,err>… / tag <15 fields> / run
+  u16 <id> <hex|-> <real>                       function-level: utf16_len
+  lr <id> <hex|-> <start> <col> <limit> <s> <e> function-level: line_range
+Output: `<id> corr=… judge=… …` per `run`, `<id> corr=…` per `u16`/`lr`.
+-/
+open TsVerif TsVerif.C18
+
+def hexVal (c : Char) : Nat :=
+  if '0' ≤ c ∧ c ≤ '9' then c.toNat - 48 else if 'a' ≤ c ∧ c ≤ 'f' then c.toNat - 87 else 0
+
+def unhexL : List Char → List Nat
+  | a :: b :: rest => (hexVal a * 16 + hexVal b) :: unhexL rest
+  | _ => []
+
+def unhex (s : String) : List Nat := if s == "-" then [] else unhexL s.toList
+
+def nat (s : String) : Nat := s.toNat?.getD 0
+
+def optNat (s : String) : Option Nat := s.toNat?
+
+structure DSt where
+  id : String := ""
+  src : Bytes := []
+  names : List String := []
+  tagsFrom : Nat := 0
+  pats : Array PatInfo := #[]
+  ms : Array Mat := #[]
+  tags : Array Tag := #[]
+
+def parseCap (s : String) : Option Cap :=
+  match (s.splitOn ",").map nat with
+  | [i, sb, eb, sr, sc, er, ec, e] => some { idx := i, sb := sb, eb := eb, sp := ⟨sr, sc⟩, ep := ⟨er, ec⟩, err := e != 0 }
+  | _ => none
+
+def parseTag (ws : List String) : Option Tag :=
+  match ws with
+  | [rs, re, ns, ne, ls, le, sr, sc, er, ec, us, ue, d, st, docs] =>
+    some { range := ⟨nat rs, nat re⟩, name := ⟨nat ns, nat ne⟩, line := ⟨nat ls, nat le⟩,
+           spanS := ⟨nat sr, nat sc⟩, spanE := ⟨nat er, nat ec⟩, u16 := ⟨nat us, nat ue⟩,
+           docs := if docs == "-" then none else some (unhexL (docs.toList.drop 1)),
+           isDef := d == "1", stid := nat st }
+  | _ => none
+
+/-- Tags on the same row as an earlier emitted tag / with a non-ASCII byte before the name on its line. -/
+def stats (src : Bytes) (tags : List Tag) : Nat × Nat :=
+  let rows := tags.map (·.spanS.row)
+  let multi := (rows.filter (fun r => rows.count r ≥ 2)).length
+  let na := (tags.filter (fun t => (slice src (t.name.s - t.spanS.col) t.name.e).any (· ≥ 128))).length
+  (multi, na)
+
+def runCase (s : DSt) : String :=
+  let cfg := mkCfg s.names s.tagsFrom s.pats
+  let ms := s.ms.toList
+  let real := s.tags.toList
+  let variants : List Variant := [{}, { drainSkips := true }, { lossyFixed := true }, { drainSkips := true, lossyFixed := true }]
+  let diffs := variants.map (fun v => diffTags (runTags v cfg s.src ms) real 0)
+  let corr := match diffs.head? with
+    | some none => "ok"
+    | some (some d) => s!"DIFF:{d}"
+    | none => "?"
+  let vars := String.ofList (diffs.map (fun d => if d.isNone then '1' else '0'))
+  let verdicts := real.map (judgeTag s.src)
+  let fails := verdicts.filterMap (fun v => match v with | .fail c m => some s!"FAIL:{c}:{m}" | _ => none)
+  let lossy := verdicts.filterMap (fun v => match v with | .lossy m => some m | _ => none)
+  let skipped := (verdicts.filter (fun v => match v with | .skip _ => true | _ => false)).length
+  let ord := judgeOrder (real.filter (!·.isIgnored))
+  let docsBad := (real.filter (fun t => !t.isIgnored && !judgeDocs cfg s.src ms t)).length
+  let j := match fails, ord with
+    | f :: _, _ => f.replace " " "_"
+    | [], some o => s!"FAIL:order:{o}".replace " " "_"
+    | [], none => if docsBad > 0 then s!"FAIL:docs:{docsBad}_tags" else "ok"
+  let (multi, na) := stats s.src real
+  let lz := match lossy with
+    | [] => "-"
+    | m :: _ => m.replace " " "_"
+  s!"{s.id} corr={corr.replace " " "_"} vars={vars} judge={j} tags={real.length} matches={ms.length} skipped={skipped} lossy={lossy.length} lossymsg={lz} multi={multi} nonascii={na} cfgbad={if cfg.invalid then 1 else 0}"
+
+def step (s : DSt) (line : String) : IO DSt := do
+  match line.splitOn " " with
+  | ["case", id] => return { id := id }
+  | ["src", h] => return { s with src := unhex h }
+  | ["src"] => return { s with src := [] }
+  | "names" :: ns => return { s with names := ns }
+  | ["tagsfrom", n] => return { s with tagsFrom := nat n }
+  | ["pat", nl, inh, adj, strip] =>
+    return { s with pats := s.pats.push { nonLocal := nl == "1", inherits := inh == "1", adjacent := optNat adj, strip := optNat strip } }
+  | "m" :: p :: caps => return { s with ms := s.ms.push { pat := nat p, caps := caps.filterMap parseCap } }
+  | "tag" :: ws =>
+    match parseTag ws with
+    | some t => return { s with tags := s.tags.push t }
+    | none => IO.println s!"{s.id} corr=BADINPUT judge=BADINPUT"; return s
+  | ["run"] => IO.println (runCase s); return s
+  | ["u16", id, h, real] =>
+    let b := unhex h
+    let m := utf16Len b
+    let spec := utf16Spec b
+    let vars := (if m == nat real then "11" else "00") ++ (if spec == nat real then "11" else "00")
+    IO.println s!"{id} kind=u16 corr={if m == nat real then "ok" else s!"DIFF:model={m},real={real}"} vars={vars} spec={if spec == nat real then "ok" else "differs"} valid={if validUtf8 b then 1 else 0}"
+    return s
+  | ["lr", id, h, sb, col, lim, rs, re] =>
+    let b := unhex h
+    let r := lineRange b (nat sb) (nat col) (nat lim)
+    let okc := r.s == nat rs && r.e == nat re
+    IO.println s!"{id} kind=lr corr={if okc then "ok" else s!"DIFF:model=[{r.s},{r.e}),real=[{rs},{re})"} vars={if okc then "1111" else "0000"}"
+    return s
+  | _ => return s
+
+def main : IO Unit := do
+  let _ ← foldLines (← IO.getStdin) ({} : DSt) step
